@@ -184,7 +184,15 @@ fn tokrt_inner(toks: &[&str]) -> String {
             let d = match t.detokenize(&t1) { Ok(s) => s, Err(e) => return format!("FAIL detokenize of own output failed: {}",e) };
             if lang::verify_str(tree_sitter_applesoft::language(),&d).is_err() { return format!("FAIL the detokenized source is not accepted again: {}",d.replace('\n',"|").chars().take(200).collect::<String>()); }
             let mut t2z = lang::applesoft::tokenizer::Tokenizer::new();
-            let t2 = match t2z.tokenize(&d,addr) { Ok(v) => v, Err(e) => return format!("FAIL re-tokenizing the detokenized source failed: {}",e) };
+            let t2 = match t2z.tokenize(&d,addr) {
+                Ok(v) => v,
+                // the blanks the listing puts at the head of REM and DATA payloads (a permitted difference) make the relisted program a few
+                // bytes longer: right below the top of memory it may no longer fit at this load address although it is the same program
+                Err(e) => match lang::applesoft::tokenizer::Tokenizer::new().tokenize(&d,2049) {
+                    Ok(v) if addr as usize + t1.len() + 64 > 65535 => v,
+                    _ => return format!("FAIL re-tokenizing the detokenized source failed: {}",e)
+                }
+            };
             let (l1,l2) = (lines_applesoft(&norm_applesoft(&t1)),lines_applesoft(&norm_applesoft(&t2)));
             if l1!=l2 {
                 let k = l1.iter().zip(l2.iter()).position(|(x,y)| x!=y).unwrap_or(l1.len().min(l2.len()));
